@@ -369,6 +369,10 @@ func writeLinkEvents(dir string, opts GlobalOptions, eventType string, edges []s
 					graph.Deps[from] = map[string]struct{}{}
 				}
 				graph.Deps[from][to] = struct{}{}
+				// The edge must not close a cycle through inherited epic-level dependencies either.
+				if hasEffectiveCycle(graph) {
+					return errors.New("dependency would create a cycle")
+				}
 			} else if graph.Deps[from] != nil {
 				delete(graph.Deps[from], to)
 			}
